@@ -39,6 +39,7 @@ def run(F, R, ctx):
     comps = lib.sccs(sorted(reach), lambda n: [c for c in ce.get(n, ()) if c in reach])
     R.note("%d functions of steel-parser are reachable from %d reader entry points; %d call-graph cycles." % (
         len(reach), len(roots), len(comps)))
+    slice_rule(F, R, reach)
     for comp in comps:
         names = sorted(comp)
         allow = None
@@ -64,3 +65,41 @@ def run(F, R, ctx):
                "level of the datum being read, so deeply nested input overflows the native stack inside Parser::parse instead "
                "of producing a datum or a reader error" % (len(names), ", ".join(lib.short_name(n) for n in names[:4])),
                F.fns[names[0]].loc(), sample={"members": [lib.short_name(n) for n in names[:6]], "allowlisted": allow})
+
+
+# byte-offset slicing of the source text in the reader: counted on the pinned tree and confirmed by reading (every offset
+# comes from the lexer's own byte positions: token_start/token_end, char_indices, find, len of an ASCII prefix)
+SLICE_BUDGET = {
+    ("<str as Index<I>>::index", "Range<usize>"): 4,
+    ("<str as Index<I>>::index", "RangeFrom<usize>"): 10,
+    ("<str as Index<I>>::index", "RangeTo<usize>"): 1,
+    ("str::split_at", ""): 1,
+}
+SLICE_RX = re.compile(r"core::str::traits::.*::index$|core::slice::index::.*::index$|::split_at$|::split_at_mut$|::get_unchecked(_mut)?$|"
+                      r"from_utf8_unchecked$|from_u32_unchecked$|::slice_unchecked$|::unwrap_unchecked$")
+
+
+def slice_rule(F, R, reach):
+    R.rule("C12.s", "byte-offset slicing of the text in the reader (str indexing by a range, split_at, *_unchecked): the "
+                    "multiset of such sites reachable from the reader entry points does not exceed the sites confirmed by "
+                    "reading on the pinned tree (whose offsets are all byte positions produced by the lexer itself); a new "
+                    "site must be shown to use a byte offset on a character boundary — slicing by a character count panics "
+                    "on non-ASCII text")
+    from collections import Counter
+    cnt = Counter()
+    where = {}
+    for n in sorted(reach):
+        fn = F.fns[n]
+        for i, b in fn.calls():
+            if SLICE_RX.search(b["callee"]):
+                k = (lib.short_name(b["callee"]), (b["targs"][1] if len(b["targs"]) > 1 else ""))
+                cnt[k] += 1
+                where.setdefault(k, []).append((fn.short(), b["line"]))
+    R.floor("C12.s", "slicing sites in the reader", sum(cnt.values()), 8)
+    for k in sorted(set(cnt) | set(SLICE_BUDGET)):
+        have, budget = cnt.get(k, 0), SLICE_BUDGET.get(k, 0)
+        R.inst("C12.s", "reader slicing sites %s %s within the confirmed budget" % (k[0], k[1]), have <= budget,
+               "the reader has %d site(s) of %s with %s but only %d were confirmed to slice at byte offsets on character "
+               "boundaries; sites now: %s — a slice whose bound is a character count (or any unchecked offset) makes the "
+               "reader itself panic on some text" % (have, k[0], k[1] or "no range", budget, where.get(k)), "",
+               sample={"sites": where.get(k, [])[:4]})
